@@ -603,3 +603,5 @@ META = {
     "and the line classifier (_is_subproc_statement: a heuristic over token shapes) are value-level and outside this analysis.",
     "more": 'The CLI writes exactly what the formatter returned (no edit in between) and reads with newline translation; the formatter tokenizes its own UTF-8 bytes as UTF-8, never with an encoding re-detected from a coding cookie. What the formatter remembers from one token to the next is computed from tokens, settings and constants, never measured on raw rows of the source text. Where paths and formatted texts are paired by position, the list of results gets one slot per input on every way through the loop that fills it.',
 }
+
+META["more"] += " Every answer of _space_between that can be reached while a macro body is being formatted is the source's own text or the empty glue. A token-derived 'inside an f-string' state must exist and be read by the spacing decision (known finding: none exists, `{y = }` and `{y:{w}}` are respaced)."
